@@ -2535,7 +2535,8 @@ class SeriesHE(Series):
 
     def __hash__(self) -> int:
         if not hasattr(self, '_hash'):
-            self._hash = hash(tuple(self.index.values))
+            # iterate labels rather than values: rows of the 2D values of a hierarchical index are not hashable
+            self._hash = hash(tuple(self._index))
         return self._hash
 
     def to_series(self) -> Series:
